@@ -138,4 +138,17 @@ Definition run_MavenRes (kind : bytes) (a : sx) : option sx :=
               end
           | _ => badcase
           end)
+  else if bytes_eqb kind [109;97;118;101;110;95;104;121;112] (* maven_hyp *) then
+    (* the hypotheses of the C07 theorems decided on the recorded table, the explicit fuel bound of
+       C07_table_resolve_total, and the resolution run with exactly that fuel *)
+    Some (match a with
+          | SL [r; t] =>
+              match dec_vk r, dec_tables t with
+              | Some root, Some tb =>
+                  SL [sx_bool (tb_plain tb); sx_bool (tb_faithful tb); sx_bool (tb_lists_faithful tb);
+                      SI (Z.of_nat (tb_fuel tb)); sx_graph (table_resolve tb (tb_fuel tb) root)]
+              | _, _ => badcase
+              end
+          | _ => badcase
+          end)
   else None.
